@@ -173,6 +173,8 @@ package compile
 //@   bodyensures 2 float_const: typeis(prog.Constants[rangeindex + 1], float64) ==> tp(e, old(e.np)) == 3 && tp(e, old(e.np) + 1) == fbits(as(prog.Constants[rangeindex + 1], float64)) && e.np == old(e.np) + 2 && e.ns == old(e.ns)
 //@ func DecodeProgram
 //@   prop C17 C09
+//@   assert /offset := binary.LittleEndian.Uint32\(data\[4:8\]\)/ [C17] only_data_with_the_magic_number_is_decoded: len(data) >= 4 && data[0] == 33 && data[1] == 115 && data[2] == 107 && data[3] == 121
+//@   assert /filename := d.string\(\)/ [C17] only_the_current_version_is_decoded: tp(d, d.ip - 1) == Version
 //@   assert /prog := &Program\{/ [C17,C09] recursion_flag_is_last_token: recursion <==> tp(d, d.ip - 1) != 0
 //@   bodyensures 2 string_const: tp(d, old(d.ip)) == 0 ==> typeis(constants[rangeindex + 1], string) && strid(as(constants[rangeindex + 1], string)) == ts(d, old(d.is)) && d.ip == old(d.ip) + 2 && d.is == old(d.is) + 1
 //@   bodyensures 2 bytes_const: tp(d, old(d.ip)) == 1 ==> typeis(constants[rangeindex + 1], Bytes) && strid(as(constants[rangeindex + 1], Bytes)) == ts(d, old(d.is)) && d.ip == old(d.ip) + 2 && d.is == old(d.is) + 1
